@@ -43,6 +43,12 @@ pub fn generics(rng: &mut Rng) -> (String, String) {
 }
 
 pub fn field_type(rng: &mut Rng) -> String {
+    // one in four: any type form the grammar knows, or a bound form the usage analysis has to survive
+    match rng.below(8) {
+        0 => return crate::gram::ty(rng, 2),
+        1 => return (*rng.pick(&["impl Sized + use<>", "Option<impl Sized + use<'a, T>>", "impl ?Sized + 'a", "Box<dyn for<'x> Fn(&'x T) -> U + Send + 'a>", "impl for<'x> Fn(&'x u8)", "Vec<impl Iterator<Item = T> + use<T>>", "<T as Trait<U>>::Out<'a, N>", "[T; { N + 1 }]", "fn(&'a T, ...) -> !"])).to_string(),
+        _ => {}
+    }
     (*rng.pick(&["u8", "String", "bool", "Option<u8>", "Vec<String>", "T", "Vec<T>", "&'a str", "syn::Ident", "Box<U>", "std::collections::HashMap<String, T>", "[u8; N]", "(u8, T)", "fn(T) -> U", "m!(x)"])).to_string()
 }
 
